@@ -35,6 +35,8 @@ def obligations(tier):
            harness="harness/h_adapters.py", func="ascii_int_ok", params={"maxlen": maxlen}, timeout=to),
         Ob("C16.plumb", "X", "root attributes = the documented 15 names; each text attribute is its own field unchanged, for 0 and 3 file pointers; ignored fields never surface",
            F, bounds="forall 14 surfaced + 2 ignored text contents |s| <= 2 (unicode)", harness="harness/h_adapters.py", func="volume_ok", timeout=to),
+        Ob("C16.inner", "X", "a text value with a run of 0..3 blanks inside it (after the padding is stripped) surfaces unchanged as its root attribute, in each of the 14 fields",
+           F, bounds="forall characters a, b (non-blank), gap 0..3, field index 0..13, 0 / 3 file pointers", harness="harness/h_adapters.py", func="volume_inner_ok", timeout=to),
         Ob("C16.fmt", "N", "creation date-time yyyymmddhhmmssxx -> ISO 8601 of the same instant", ["ceos_alos2.transformers:normalize_datetime"],
            bounds="forall valid digit strings", call="props.c17:ob_fmt"),
         Ob("C16.e2e", "E", "a volume directory written from the pinned layout -> real open_volume_directory: every root attribute equals the text written at its pinned position",
